@@ -1017,3 +1017,13 @@ def shrink_candidates(case):
                     yield ('json', f[1])
                     if f[3] != ([],):
                         yield ('json', ('struct', e[1][:i] + [(f[0], f[1], f[2], ([],))] + e[1][i + 1:]))
+    if case[0] in ('create', 'infer'):
+        rows = case[1]
+        if len(rows) > 1:
+            for i in range(len(rows)):
+                yield (case[0], rows[:i] + rows[i + 1:]) + tuple(case[2:])
+    if case[0] == 'create_s':
+        rows = case[2]
+        if len(rows) > 1:
+            for i in range(len(rows)):
+                yield (case[0], case[1], rows[:i] + rows[i + 1:]) + tuple(case[3:])
